@@ -431,6 +431,8 @@ func selectorLevel(r *ev.Run, v *vault) map[string]any {
 		}
 	}
 	r.Evals(int(tot.evals))
+	r.Sample(map[string]any{"level": "selector", "value_alphabet_small": valueAlphabet(targets[0]), "value_alphabet_mid": valueAlphabet(targets[1]),
+		"targets": targets, "min_change": "2000 | target/2 | 2.5*target", "fee_rates": feeRates, "m_of_n": "2 of 3", "strategies": strategies})
 	for k := range tot.cases {
 		r.Case("sel:" + k)
 	}
